@@ -253,8 +253,8 @@ CHECKS = {
             "the minimal DFA; it is proved sound (C15_is_minimal_sound: minimal among complete DFAs, and among all DFAs when flagged "
             "partial, from the Myhill-Nerode lower bound of C05) and complete; the constructor models are proved minimal for ALL "
             "parameters (C15_constructors_minimal: universal/empty, from_subsequence, from_substring/from_suffix, from_prefix, "
-            "of_length with a non-empty range and a counted symbol, nth_from_start) by explicit access and distinguishing words. "
-            "Not proved: minimality of nth_from_end's model (evaluated by is_minimal on every run); from_finite_language has no model.",
+            "of_length with a non-empty range and a counted symbol, nth_from_start, nth_from_end) by explicit access and distinguishing "
+            "words. Not modelled: from_finite_language.",
             "Open known finding (genuine defect, found while proving the Aho-Corasick language theorem): from_substrings "
             "(must_be_suffix=False) with a pattern that contains a symbol outside the alphabet - end_state = len(transitions) collides "
             "with the label of a visited trie node, e.g. DFA.from_substrings({'a'}, {'bb','aa'}) accepts 'a'; the faithful model "
